@@ -11,6 +11,12 @@ CacheIface* make_tls_cache(int capacity);     // SQUIDS_THREAD_LOCAL=thread_loca
 // per-thread counters of simulated atomic operations (shared variant)
 long cachesim_cas_count();
 void cachesim_cas_reset();
+// happens-before model of the shared variant: reset before the cache is built, each simulated thread announces its start, the harness joins
+// all of them after the run; a payload access the memory orders leave unordered is reported once
+void cachesim_hb_reset();
+void cachesim_hb_thread_start();
+void cachesim_hb_join_all();
+const char* cachesim_hb_race();
 extern int cachesim_spurious_pct;
 extern int cachesim_coarse;
 #endif
